@@ -2,8 +2,9 @@
 
 One Part per kernel family:
 
-  proj       Projection / calcProjectionMatrix / calcOrthogonalProjectionMatrix
-  chordal    calc_principal_angles / calc_chordal_distance(_2|_from_principal_angles)
+  proj       Projection, calcProjectionMatrix, calcOrthogonalProjectionMatrix
+  chordal    calc_principal_angles / calc_chordal_distance /
+             calc_chordal_distance_2 / calc_chordal_distance_from_principal_angles
   gmd        util.misc.gmd
   whiten     util.misc.calc_whitening_matrix
   invupd     util.misc.update_inv_sum_diag
@@ -51,19 +52,24 @@ LEVEL_TEXT = ("Generated-input search (Hypothesis, seeded, sharded) over real "
               "conversions); the integer conversion grid is enumerated "
               "completely.  Absence of violations is not proven.")
 LEVEL_NOTE = ("float64; tolerances are relative to the operand norm and scaled "
-              "by kappa (inverse, whitening) or kappa^2 (normal-equation "
-              "projector A (A^H A)^-1 A^H); principal-angle route compared at "
-              "1e-6 absolute (arccos near 1)")
+              "by kappa (inverse update, whitening), kappa^2 (normal-equation "
+              "projector A (A^H A)^-1 A^H, chordal distances) or kappa (gmd); "
+              "principal-angle route compared on squared distances (1e-12, "
+              "i.e. d < 1e-6 near zero)")
 TECHNIQUE = ("property-based testing (Hypothesis): algebraic-identity, "
              "metamorphic (symmetry, change of basis, unitary rotation, round "
              "trip) and reference (eigvalsh / svd / inv) oracles")
 ASSUMPTIONS = [
     "condition numbers are bounded (1e3 quick, 1e4/1e6 thorough); errors are "
     "judged relative to kappa (kappa^2 for the normal-equation projector)",
-    "chordal distances: agreement / symmetry / invariance judged at "
-    "1e-6 + 1e-11*kappa^2 absolute, 'vanishes for equal subspaces' at the same "
-    "tolerance (the principal-angle route goes through arccos near 1, whose "
-    "intrinsic accuracy is sqrt(eps))",
+    "chordal distances: the two projector-difference routines are compared "
+    "at 1e-12 + 1e-13*kappa^2; every comparison that involves the "
+    "principal-angle route is made on squared distances at "
+    "1e-12 + 1e-12*kappa^2 (arccos near 1 limits d itself to sqrt(eps)), so "
+    "'vanishes for equal subspaces' means d < 1e-6 for that route",
+    "gmd: reconstruction and orthonormality of Q are judged at 1e-11*kappa "
+    "(the algorithm's second rotation G2 is orthogonal only up to "
+    "eps*kappa; observed 3e-14*kappa), P and the diagonal at 1e-12",
     "peig/leig are called with Hermitian positive (semi-)definite matrices "
     "only (their documented domain); linear independence / orthonormality of "
     "the returned eigenvectors is measured (label) but not asserted",
@@ -75,10 +81,8 @@ ASSUMPTIONS = [
     "is separated from the (k+1)-th (relative gap >= 1e-3)",
 ]
 
-QUICK_BUDGET_S = 90
+QUICK_BUDGET_S = 180
 THOROUGH_BUDGET_S = 1500
-
-EPS = 2.220446049250313e-16
 
 
 # ----------------------------------------------------------------------------
@@ -213,8 +217,24 @@ def _hpd(draw, kmax):
     return d
 
 
+def _spread(R):
+    """make the eigenvalues of a 'spectral' covariance pairwise different
+    (ratio >= 1.013 between neighbours after sorting)"""
+    if R["mode"] != "spectral":
+        return R
+    ev = sorted(R["ev"])
+    out = [ev[0]]
+    for e in ev[1:]:
+        out.append(max(e, out[-1] * 1.013))
+    return dict(R, ev=out)
+
+
 def _s_whiten(tier):
-    return _hpd(_kmax(tier, "whiten")).map(lambda R: dict(part="whiten", R=R))
+    # half of the cases get distinct eigenvalues by construction so that the
+    # search continues behind the repeated-eigenvalue finding
+    R = _hpd(_kmax(tier, "whiten"))
+    return st.one_of(R, R.map(_spread)).map(
+        lambda r: dict(part="whiten", R=r))
 
 
 def _s_invupd(tier):
@@ -299,13 +319,13 @@ def _enum_conv_grid(tier):
 
 
 PARTS = [
-    Part("proj", _s_proj, quick=1600, thorough=120000),
-    Part("chordal", _s_chordal, quick=1200, thorough=80000),
-    Part("gmd", _s_gmd, quick=1600, thorough=120000),
-    Part("whiten", _s_whiten, quick=1600, thorough=120000),
-    Part("invupd", _s_invupd, quick=1600, thorough=120000),
-    Part("selectors", _s_selectors, quick=2400, thorough=160000),
-    Part("conv", _s_conv, quick=2000, thorough=100000),
+    Part("proj", _s_proj, quick=1600, thorough=60000),
+    Part("chordal", _s_chordal, quick=1200, thorough=40000),
+    Part("gmd", _s_gmd, quick=1600, thorough=60000),
+    Part("whiten", _s_whiten, quick=1600, thorough=60000),
+    Part("invupd", _s_invupd, quick=1600, thorough=60000),
+    Part("selectors", _s_selectors, quick=2400, thorough=100000),
+    Part("conv", _s_conv, quick=2000, thorough=60000),
     Part("conv_grid", enumerate=_enum_conv_grid, exhaustive=True,
          quick_shards=1, thorough_shards=1),
 ]
@@ -654,7 +674,10 @@ def _check_whiten(case, ctx):
         raise Violation("whiten_shape", "W %r for R %r" %
                         (np.shape(W), R.shape), tags)
     E = _H(W).dot(R).dot(W) - np.eye(n)
-    ctx.close("whiten_WhRW_eq_I", _amax(E), 1e-10 * kap,
+    # two sub-checks (same tolerance): degenerate = an eigenvalue is repeated
+    # or nearly repeated (relative gap < 1e-4)
+    ctx.close("whiten_WhRW_eq_I" if gap == "distinct" else
+              "whiten_WhRW_eq_I_degenerate", _amax(E), 1e-10 * kap,
               "n=%d eigenvalues=%r" % (n, ev.tolist()), tags)
 
 
@@ -837,7 +860,8 @@ def _check_pcm(case, ctx):
     ctx.nontrivial(0 < k and ((max(m, n) >= 3 and cplx) or
                               (p >= 2 and
                                _gap_class(_relgap_min(s)) != "distinct")))
-    out = np.asarray(_call(tags, misc.get_principal_component_matrix, A, k))
+    out = np.asarray(_call(tags, misc.get_principal_component_matrix, A,
+                           k))
     if out.shape != (m, k):
         raise Violation("pcm_shape", "A %r, %d components -> %r" %
                         (A.shape, k, out.shape), tags)
